@@ -178,14 +178,16 @@ prop("C06", [
                  "DNSPkt::get_expiry contract assumed by unit cache; checked only bounded (Kani dns_ttl shapes)"])
 
 prop("C14", [
-    dict(engine="verus", unit="dnsser", fns=["lemma_header_roundtrip", "DNSPkt::serialise_with_size", "push_rr", "push_label", "push_str", "push_u16", "push_u32", "make_edns_opt"]),
-    dict(engine="verus", unit="dnsparse", fns=["PktParser::get_dns", "PktParser::get_domain", "PktParser::get_domain_into", "PktParser::get_rr", "PktParser::get_question", "lemma_pointer_budget_covers_every_name"]),
+    dict(engine="verus", unit="dnsser", fns=["lemma_header_roundtrip", "lemma_record_roundtrip", "lemma_rr_tail", "DNSPkt::serialise_with_size", "push_rr", "push_label", "push_str", "push_u16", "push_u32", "make_edns_opt", "EdnsData::push_opt"]),
+    dict(engine="verus", unit="dnsparse", fns=["PktParser::get_dns", "PktParser::get_domain", "PktParser::get_domain_into", "PktParser::get_rr", "PktParser::get_rdata", "PktParser::get_type", "PktParser::get_class", "PktParser::get_u32",
+                                               "PktParser::get_question", "lemma_pointer_budget_covers_every_name"]),
     dict(engine="kani", sets=["dns_compress"]),
 ], explanation="(a) header/flag bits: encoder contract (octets 2,3 = flag1_of/flag2_of) and decoder contract (fields = bit tests on octets 2,3) compose to the identity (lemma, all messages); "
-               "(b) what the decoder accepts the encoder can encode (pkt_wf) and the encoder's counts/size contract; (c) compression pointers: BOUNDED Kani on the real push_compressed_domain/push_prefix",
+               "(b) what the decoder accepts the encoder can encode (pkt_wf) and the encoder's counts/size contract; (b') one record: after the owner name the encoder writes type, class, TTL, an RDLENGTH that counts the rdata it wrote and opaque rdata verbatim, "
+               "and the decoder reads exactly those fields back (lemma_record_roundtrip over both contracts); (c) compression pointers: BOUNDED Kani on the real push_compressed_domain/push_prefix",
     assumptions=["decode(encode(m)) == m for whole messages is NOT decided: it needs the suffix-tree invariant of push_prefix (LinkedList, &mut Option<&mut ..> re-borrows: outside Verus) unbounded",
                  "compression harnesses are bounded: names of <= 2 one-octet labels, two pushes, four shapes, base offset symbolic over 0..=65535 (and >= 16384 up to usize::MAX-64 for the never-a-pointer case)",
-                 "record bodies: the encoder is proved append-only with exact counts, not octet-exact against the decoder"])
+                 "structured record data (names inside CNAME/NS/PTR/MX/SOA/.., NAPTR strings, SOA counters) is proved append-only with a consistent RDLENGTH, not octet-exact against the decoder; owner names depend on the compression dictionary (bounded only)"])
 
 prop("C15", [
     dict(engine="verus", unit="router"),
